@@ -75,6 +75,76 @@ def check_graph_leaves(facts, chk, rule):
             chk.violation(rule, rule + ':identify_good_kmers', where=EX + 'identify_good_kmers',
                           detail='entry/exit recording: values %s ok=%s, gated by compare_samples=%s, compared sets are the two out-edges=%s' % (vals, ok_vals, gated, ok_args))
 
+    def entry_func():
+        """functional twin of the two rules above (independent of how the test is written): identify_good_kmers interpreted on
+        small successor tables - 1..4 out-edges per node carrying any of 4 sample sets, duplicates of an edge included (the graph
+        builder pushes an edge twice after a split k-mer whose arms are reverse complements of each other).  A node is an entry
+        iff some two of its out-edges carry different sample sets; the exits are exactly the reverse complements of the entries."""
+        from ..absint.interp import MapV, _mkey, Panic
+        from ..absint.values import Agg, BV
+        kg = 3
+        sets = [frozenset(), frozenset([0]), frozenset([1]), frozenset([0, 1, 2])]
+        di_f = [x['name'] for x in facts.adt('skalo::utils::DataInfo')['variants'][0]['fields']]
+        if sorted(di_f) != ['k_graph', 'sample_names']:
+            raise AnchorLost('DataInfo fields are %s' % di_f)
+        from ..absint.interp import StrV
+        dvals = dict(k_graph=BV(64, kg), sample_names=Agg('array', 0, [StrV(list('s%d' % i)) for i in range(3)]))
+        di = Agg('adt:skalo::utils::DataInfo', 0, [dvals[n] for n in di_f])
+
+        cases = []
+        nodes = [0b000110, 0b011011, 0b100001]      # three 3-mers
+        # one node with every multiset of up to 4 out-edges over (last base b, sample set s): the last base identifies the edge
+        for n_out in (1, 2, 3, 4):
+            for bases in itertools.product(range(4), repeat=n_out):
+                if list(bases) != sorted(bases):
+                    continue
+                distinct = sorted(set(bases))
+                for assign in itertools.product(range(len(sets)), repeat=len(distinct)):
+                    cases.append([(nodes[0], [(b, sets[assign[distinct.index(b)]]) for b in bases])])
+        # several nodes at once (entries and non-entries mixed, in both insertion orders)
+        multi = [(nodes[0], [(0, sets[1]), (1, sets[1])]), (nodes[1], [(2, sets[1]), (2, sets[1]), (3, sets[2])]), (nodes[2], [(1, sets[3])])]
+        cases.append(multi)
+        cases.append(multi[::-1])
+        bad = []
+        n = 0
+        for case in cases:
+            I = Interp(facts, {'IntT': 'u64'})
+            allk, k2s = MapV(), MapV()
+            expect = set()
+            for node, outs in case:
+                succ = [BV(64, ((node << 2) | b) & ((1 << (2 * kg)) - 1)) for b, _ in outs]
+                allk.d[_mkey(BV(64, node))] = (BV(64, node), Cell(Agg('array', 0, succ), 'mapval'))
+                for b, ss in outs:
+                    full = BV(64, (node << 2) | b)
+                    k2s.d[_mkey(full)] = (full, Cell(bitset(ss), 'mapval'))
+                if len(set(ss for _, ss in outs)) > 1:
+                    expect.add(node)
+            try:
+                r = I.call_fn(EX + 'identify_good_kmers', [RefV(Cell(allk, 'all_kmers')), RefV(Cell(k2s, 'k2s')), RefV(Cell(di, 'di'))])
+                starts = set(v.val for v in r.fields[0].d.values())
+                ends = set(v.val for v in r.fields[1].d.values())
+            except Panic as e:
+                if e.kind == 'process-exit':
+                    starts, ends = set(), set()
+                else:
+                    raise
+            n += 1
+            exp_ends = set(I.call_fn('<u64 as ska_dict::bit_encoding::UInt>::rev_comp', [BV(64, x), BV(64, kg)]).val for x in expect)
+            if starts != expect:
+                bad.append(('entry nodes', [(nd, [(b, sorted(ss)) for b, ss in outs]) for nd, outs in case], sorted(starts), sorted(expect)))
+            elif ends != exp_ends:
+                bad.append(('exit nodes', [(nd, [(b, sorted(ss)) for b, ss in outs]) for nd, outs in case], sorted(ends), sorted(exp_ends)))
+        return n, bad
+    r = chk.guard(rule, rule + ':entry-func', entry_func)
+    if r is not None:
+        n, bad = r
+        if bad:
+            chk.violation(rule, rule + ':entry-func', where=EX + 'identify_good_kmers', evals=n,
+                          detail='%s for the successor table %s: got %s, expected %s (%d of %d tables wrong)' % (bad[0][0], bad[0][1], bad[0][2], bad[0][3], len(bad), n))
+        else:
+            chk.ok(rule, rule + ':entry-func', EX + 'identify_good_kmers',
+                   'entry iff two out-edges carry different sample sets, duplicated edges included; exits = reverse complements of the entries (%d successor tables)' % n, evals=n)
+
     def seq_codec():
         # functional: rev_compl(s), DnaSequence::encode(s).decode() / .len() / .get_range(a, b) on strings (either case) - independent
         # of whether the functions are written with closures or loops
